@@ -100,17 +100,22 @@ def c03_1(c: Ctx) -> None:
     children_atom = f'{self_}.event_are_all_children_complete()'
     # the local holding the all-terminal predicate
     pred_locals = {}
+    negated_locals: set[str] = set()
     for n in own_nodes(owner.node):
         if isinstance(n, ast.Assign) and len(n.targets) == 1 and isinstance(n.targets[0], ast.Name) and isinstance(n.value, ast.Call) and U(n.value.func) in ('all', 'any'):
             pred_locals[n.targets[0].id] = n
+        elif isinstance(n, ast.Assign) and len(n.targets) == 1 and isinstance(n.targets[0], ast.Name) and isinstance(n.value, ast.UnaryOp) and isinstance(n.value.op, ast.Not) \
+                and isinstance(n.value.operand, ast.Call) and U(n.value.operand.func) in ('all', 'any'):
+            pred_locals[n.targets[0].id] = n  # a local that holds the negation ("some handler unfinished")
+            negated_locals.add(n.targets[0].id)
     # the predicate may also be tested where it is computed (`if not all(...): return`): the call's text is the atom then
-    inline_preds = [n for n in own_nodes(owner.node) if isinstance(n, ast.Call) and isinstance(n.func, ast.Name) and n.func.id in ('all', 'any') and not any(a.value is n for a in pred_locals.values())]
+    inline_preds = [n for n in own_nodes(owner.node) if isinstance(n, ast.Call) and isinstance(n.func, ast.Name) and n.func.id in ('all', 'any') and not any(a.value is n or (isinstance(a.value, ast.UnaryOp) and a.value.operand is n) for a in pred_locals.values())]
     for n in inline_preds:
         pred_locals.setdefault(U(n), n)
     pred_locals = {k: v for i, (k, v) in enumerate(pred_locals.items()) if k not in list(pred_locals)[:i]}
     atoms = {f'{self_}.event_results', children_atom} | set(pred_locals)
     facts = Facts(lambda a: a in atoms, cg=c.cg, unit=owner, ignore_writes={'event_processed_at'}, rhs_value=lambda v: None)
-    guard = f'(not {self_}.event_results) or (({" and ".join(f"({x})" for x in sorted(pred_locals)) or "False"}) and {children_atom})'
+    guard = f'(not {self_}.event_results) or (({" and ".join((f"(not {x})" if x in negated_locals else f"({x})") for x in sorted(pred_locals)) or "False"}) and {children_atom})'
     for call in own_sets:
         st = q.stmt_of(call)
         for n in g.nodes_of(st):
@@ -123,7 +128,8 @@ def c03_1(c: Ctx) -> None:
     if len(pred_locals) != 1:
         c.fail(owner, f'{len(pred_locals)} all()/any() predicates over the results', 'the "all handlers done" predicate is missing or duplicated')
     for name, asg in pred_locals.items():
-        ok, why = all_terminal_shape(asg.value if isinstance(asg, ast.Assign) else asg)
+        pv = asg.value if isinstance(asg, ast.Assign) else asg
+        ok, why = all_terminal_shape(pv.operand if name in negated_locals else pv)
         if ok:
             c.ok(where(owner, asg), f"`{name}` = all(status in ('completed','error')) over every result")
         else:
